@@ -19,11 +19,15 @@ class InnerSubscription(abc.DisposableBase):
         self.lock = threading.RLock()
 
     def dispose(self) -> None:
-        # The subject updates its observer list under its own lock; removing
-        # the observer under the same lock keeps the membership test and the
-        # removal atomic with respect to a concurrent on_error/on_completed.
-        with self.lock, self.subject.lock:
+        with self.lock:
             if not self.subject.is_disposed and self.observer:
-                if self.observer in self.subject.observers:
+                # The subject may clear its observer list concurrently (it
+                # terminates on another thread): tolerate the observer being
+                # gone already instead of testing membership first. The
+                # subject's own lock is not taken here, because the subject
+                # notifies late subscribers while holding it.
+                try:
                     self.subject.observers.remove(self.observer)
+                except ValueError:
+                    pass
                 self.observer = None
